@@ -484,7 +484,25 @@ def mon_c16(sc, controller, outcome):
     sent_at = {}        # ... -> tiered time of the agent's step during which it was set
     inflight = {i: None for i in range(n)}
     for idx, e in enumerate(controller.full_trace):
-        if e[0] == "set_data":
+        if e[0] == "get_data_res":
+            # data path of an accepted get_data: the answer is what mosaik found in its cache plus what the other simulator
+            # answered to the forwarded part - a requested attribute that was NOT forwarded must be in the answer, and every
+            # forwarded value must be handed on
+            _, _sid, target, req, res, fwd = e
+            forwarded = {(eid, a) for outs, _d in fwd for eid, attrs in outs.items() for a in attrs}
+            for full, attrs in req.items():
+                eid = full.split(".", 1)[1]
+                for a in attrs:
+                    if (eid, a) not in forwarded and a not in res.get(full, {}):
+                        vio.append({"law": "get_data: an attribute answered from the cache is in the reply whatever else had to be forwarded",
+                                    "requester": e[1], "target": target, "request": req, "reply": res, "forwarded": sorted(forwarded), "event": idx})
+            for _outs, d in fwd:
+                for eid, vals in d.items():
+                    for a, v in (vals.items() if eid != "time" else []):
+                        if res.get(f"S{target}.{eid}", {}).get(a, "<absent>") != v:
+                            vio.append({"law": "get_data: what the other simulator answers to the forwarded request is handed on",
+                                        "requester": e[1], "target": target, "request": req, "reply": res, "forwarded_reply": d, "event": idx})
+        elif e[0] == "set_data":
             B = sid_i(e[1])
             for src_full, dests in e[3].items():
                 ssid, seid = src_full.split(".", 1)
